@@ -13,7 +13,7 @@ META = {
     "level": "other",
     "functions": {"gaftools.cli.order_gfa": ["run_order_gfa", "decompose_and_order", "name_comps"], "gaftools.gfa": ["GFA.biccs", "GFA.write_gfa"]},
     "explanation": "Bounded symbolic execution (CrossHair/z3) of the real run_order_gfa on 2-3 chromosome graphs in which a chosen "
-    "subset of components is not chain-shaped (branching tip; three articulation points on one cycle) at every position of "
+    "subset of components is not chain-shaped (branching tip of one or two nodes - the two-node tip makes a non-reference node an articulation point; three articulation points on one cycle) at every position of "
     "--chromosome_order; reference node lengths (SO) are symbolic.  Oracle: the command returns normally; no GFA/CSV file and "
     "no BO/NO tag exists for a skipped component; a warning names it; every other requested chromosome has exactly the tags, "
     "GFA and CSV lines it gets when the same command is run, in the same execution, with the skipped chromosome removed from the "
@@ -28,7 +28,8 @@ META = {
 def harnesses(tier):
     hs = []
     orders = list(itertools.permutations(["chr1", "chr2", "chr3"]))
-    cfgs = [({"chr2": "tip"},), ({"chr2": "tricycle"},), ({"chr1": "tip", "chr3": "tricycle"},), ({"chr1": "tricycle"},), ({"chr3": "tip"},)]
+    cfgs = [({"chr2": "tip"},), ({"chr2": "tricycle"},), ({"chr1": "tip", "chr3": "tricycle"},), ({"chr1": "tricycle"},), ({"chr3": "tip"},),
+            ({"chr2": "tip2"},), ({"chr1": "tip2", "chr3": "tip"},)]
     i = 0
     for (bad,) in cfgs:
         for od in orders:
